@@ -2,7 +2,8 @@
    Only statements here; every proof is `exact <lemma of Proofs/Server_proofs.v>`.
 
    Model: Model/Server.v.  A server is a step function over the events the kernel delivers
-   (Connect c | Data c now bytes = one successful Read | Close c = EOF / reset / any read error), for any
+   (Connect c | Data c now bytes = one successful Read | Close c = EOF / reset / any read error | WriteErr c =
+   from now on conn.Write on c fails: the peer stopped receiving), for any
    number of connections in any interleaving.  Every index, slice and pointer dereference of the
    per-connection code is evaluated with the CHECKED primitives (Panic beyond len / on nil), and a
    Panic anywhere is the outcome Crash (goroutine per connection, no recover).  The theorems say that
@@ -125,6 +126,13 @@ Example C10_ex_808 :
   map o_seq (fst (seen808 2 (run808 false ex_evs))) = [0; 1] /\
   seen808 2 (run808 false ex_evs) = seen808 2 (run808 false (without 1 ex_evs)).
 Proof. vm_compute. repeat split; reflexivity. Qed.
+
+(* a client that pipelines heartbeats, stops receiving (every later conn.Write fails) and goes away: the
+   writer logs the errors and carries on, nothing is delivered any more, nobody panics *)
+Example C10_ex_write_fails :
+  let evs := [Connect 3; Data 3 0 (ex_hb ++ ex_hb); WriteErr 3; Data 3 0 (ex_hb ++ ex_hb ++ ex_hb); Close 3] in
+  outcome808 (run808 false evs) = Running /\ map o_seq (fst (seen808 3 (run808 false evs))) = [0; 1].
+Proof. vm_compute. split; reflexivity. Qed.
 
 (* attachment: connect-and-close, and a 0x1212 for a file that was never announced, next to nothing else *)
 Example C10_ex_att :
